@@ -40,6 +40,9 @@ for name, (prop, needs, caught) in T.items():
     }
     if os.path.exists(d + '/meta.json'):
         old = json.load(open(d + '/meta.json'))
+        if 'note' in old: meta['confirmed'] = old['confirmed']
+    if os.path.exists(d + '/meta.json'):
+        old = json.load(open(d + '/meta.json'))
         for k in ('note',):
             if k in old: meta[k] = old[k]
     json.dump(meta, open(d + '/meta.json', 'w'), indent=1)
